@@ -17,15 +17,17 @@ Definition smsg_of (f : frame) : smsg :=
   | FUnknown => SUnknown
   end.
 
-Definition forget (o : obs) : cobs :=
+(* payload deliveries are judged at the data level (c06_data below: nothing before setup,
+   exactly the received payloads afterwards); the control monitor reads everything else *)
+Definition forget (o : obs) : list cobs :=
   match o with
-  | OReport s e => BReport s e
-  | OWrite f ok => BWrite (smsg_of f) ok
-  | OPairedQ a => BPairedQ a | OAutoQ a => BAutoQ a | OAllowQ a => BAllowQ a
-  | OSetup => BSetup | OShipId _ => BShipId | ODeliver _ => BDeliver
-  | OCloseData _ _ => BCloseData KUser | OClosedCb b => BClosedCb b
-  | OPanic => BPanic | OHang => BHang | OFuel => BFuel
-  | OSnap s e a t rd _ => BSnap s e a t rd
+  | OReport s e => [BReport s e]
+  | OWrite f ok => [BWrite (smsg_of f) ok]
+  | OPairedQ a => [BPairedQ a] | OAutoQ a => [BAutoQ a] | OAllowQ a => [BAllowQ a]
+  | OSetup => [BSetup] | OShipId _ => [BShipId] | ODeliver _ => []
+  | OCloseData _ _ => [BCloseData KUser] | OClosedCb b => [BClosedCb b]
+  | OPanic => [BPanic] | OHang => [BHang] | OFuel => [BFuel]
+  | OSnap s e a t rd _ => [BSnap s e a t rd]
   end.
 
 (* what the monitors need to know about the state when an event starts is read off the
@@ -46,7 +48,7 @@ Definition pseudo_cs (r : role) (t : track) : cs :=
 Fixpoint abs_trace (r : role) (t : track) (es : list eventx) (obs : list (list obs)) : list cobs :=
   match es, obs with
   | e :: es', os :: obs' =>
-      BEv (abs_ev (pseudo_cs r t) (t_stored t) e) :: map forget os
+      BEv (abs_ev (pseudo_cs r t) (t_stored t) e) :: flat_map forget os
         ++ abs_trace r (track_obs t e os) es' obs'
   | _, _ => []
   end.
@@ -89,7 +91,11 @@ Fixpoint c06_data (setup : bool) (recvd delivered : list N)
 Definition check_conn (lo hi : N) (c : conn_case) : codes :=
   (if corr_ok c then [] else [1]) ++ viol_in lo hi (mon_impl c).
 
-Definition check_C01 := check_conn 10 19.
+(* C01's delivery clause on implementation traces: a payload handed over before the device
+   was set up (code 60 of the data-level check) is a delivery without trust (code 12) *)
+Definition check_C01 (c : conn_case) : codes :=
+  check_conn 10 19 c ++
+  (if existsb (N.eqb 60) (c06_data false [] [] (cc_events c) (cc_obs c)) then [12] else []).
 Definition check_C04 := check_conn 20 29.
 Definition check_C08 := check_conn 30 39.
 Definition check_C09 := check_conn 40 49.
